@@ -84,6 +84,14 @@ def py_model(events, *, keep=("SER", "LVL", "SERVO", "PASS"), final_ms=None):
     return [e for e in out if e["k"] in keep or e["k"] == "END"]
 
 
+def after_marker(model, marker: str):
+    """Events after the serial line `marker` (None when the marker is absent)."""
+    for i, e in enumerate(model):
+        if e["k"] == "SER" and e["text"] == marker:
+            return model[i + 1:]
+    return None
+
+
 def dedupe_levels(model, *, no_dedupe_pins=frozenset()):
     """Drop pin writes that do not change the pin's level (initial level 0)."""
     level = {}
